@@ -10,7 +10,7 @@ were only valid under another call's assumptions."""
 from vfacts import strip, walk, method_name, root_path, must_pass_through, is_node
 
 RULE = 'FRAMERESET'
-FLOOR = 3
+FLOOR = 2
 ANCHORS = ['ExpandCallEmulator::push']
 RESET = {'clear', 'init', 'assign', 'reset', 'operator='}
 
@@ -79,6 +79,42 @@ def run(unit, em):
                     # pop(top) swaps the caller's own containers back in: what follows is the caller's frame
                     if n['k'] == 'CXXMemberCallExpr' and method_name(n) == 'pop' and (n.get('q') or '').endswith('ExpandCallEmulator::pop'):
                         return True
+                    return passes_to_resetter(n)
+
+                def resets_param_first(call, argidx):
+                    """callee (if its body is in this unit) clears/assigns parameter #argidx before any other use"""
+                    cal = unit.by_decl.get(call.get('cd'))
+                    if cal is None or cal.body is None or argidx >= len(cal.params):
+                        return None
+                    pd = cal.params[argidx]['d']
+                    ccfg = cal.cfg()
+                    if ccfg is None:
+                        return None
+
+                    def p_reset(x):
+                        if x['k'] == 'CXXMemberCallExpr' and method_name(x) in RESET and (strip(x.get('obj')) or {}).get('d') == pd:
+                            return True
+                        return x['k'] == 'CXXOperatorCallExpr' and x.get('op') == '=' and x.get('args') and (strip(x['args'][0]) or {}).get('d') == pd
+
+                    def p_use(x):
+                        if x['k'] != 'DeclRefExpr' or x.get('d') != pd:
+                            return False
+                        par = x.get('_p')
+                        while par is not None and par['k'] in ('ImplicitCastExpr', 'ParenExpr'):
+                            par = par.get('_p')
+                        return not (par is not None and p_reset(par))
+                    ok_, _ = must_pass_through(ccfg, (ccfg.entry, 0), p_use, p_reset, start_after=False)
+                    return ok_
+
+                def passes_to_resetter(n):
+                    if n['k'] not in ('CallExpr', 'CXXMemberCallExpr') or n.get('q') == 'std::swap':
+                        return False
+                    pk = n.get('pk', '')
+                    for i, a_ in enumerate(n.get('args', [])):
+                        if on_field(strip(a_) or {}) and i < len(pk) and pk[i] == 'r':
+                            r_ = resets_param_first(n, i)
+                            if r_ is True or r_ is None:
+                                return True   # resets it first, or body not visible here (potential reset: never reported)
                     return False
 
                 def is_use(n):
